@@ -45,19 +45,27 @@ void run_c14(sim::RunCtx& ctx) {
     if (pages.empty()) { ctx.evals = 1; return; }
     sim::Rng r; r.seed(rs, 14);
     bool exhaustive = page_bytes <= 8192;
-    if (exhaustive) SIM_COUNT("probe.damage_enumeration_exhaustive");
     uint64_t evals = 0; int64_t idx = 0;
     const std::vector<uint8_t>& image = vf.bytes;
+    // bound the work per image: beyond ~45 000 (quick) / 400 000 (thorough) damaged reads an even sample is taken
+    uint64_t planned = 0; for (auto& pg : pages) planned += (uint64_t)pg.len * (ctx.thorough ? 24 + 6 : 8 + 2 + 6);
+    // every damaged read re-opens the image (footer parse), so the allowance shrinks with the image size
+    const uint64_t cap = (ctx.thorough ? 400000ull : 45000ull) * 2048 / std::max<uint64_t>(2048, image.size());
+    const uint32_t keep_permille = planned <= cap ? 1000 : (uint32_t)(cap * 1000 / planned);
+    if (keep_permille < 1000) { exhaustive = false; SIM_COUNT("probe.damage_enumeration_sampled"); }
+    if (exhaustive) SIM_COUNT("probe.damage_enumeration_exhaustive");
     auto one = [&](const PageSpan& pg, int kind, uint64_t pos, uint32_t arg, int mode) {
         int64_t my = idx++;
         if (ctx.focus >= 0 && ctx.focus2 != my) return;
         uint64_t dh = sim::fnv(&my, sizeof my, 0x9E3779B97F4A7C15ull ^ rs);   // per-damage choices must not depend on which other damages ran
+        if (keep_permille < 1000 && ctx.focus < 0 && (dh >> 48) % 1000 >= keep_permille) return;
         sim::set_focus(14, my);
         ctx.viol_focus = 14; ctx.viol_focus2 = my;
         std::vector<uint8_t> img = image;
         apply_damage(img, pg, kind, pos, arg);
         if (memcmp(img.data() + pg.off, image.data() + pg.off, pg.len) == 0) return;
         sim::disk_put(dpath, img);
+        if (sim::L.keep && ctx.focus >= 0) fprintf(stderr, "SIM-PLAN damage #%lld: kind %d at body offset %llu (arg %u) of the %s page of rg%d col%d, stored bytes [%llu,+%u), first entry %zu, transport %d\n", (long long)my, kind, (unsigned long long)(kind == 0 ? pos / 8 : pos), arg, pg.dict ? "dictionary" : "data", pg.rg, pg.col, (unsigned long long)pg.off, pg.len, pg.first_entry, mode);
         const Col& c = t.cols[(size_t)pg.col]; const Chunk& want = t.rgs[(size_t)pg.rg].cols[(size_t)pg.col];
         static const char* KN[] = {"bit flip", "byte set", "burst"};
         {
